@@ -134,3 +134,12 @@ mut("c14-keep-demorgan", "C14", "KEEP", "hclsyntax/token.go",
 mut("c07-filter-inverted", "C07", "MUST", "ext/dynblock/variables.go",
     "\t\t\t\t\tours := traversal.RootName() == iteratorName\n\t\t\t\t\t_, inherited := blockIt.Inherited[traversal.RootName()]\n\n\t\t\t\t\tif !ours && !inherited {",
     "\t\t\t\t\tours := traversal.RootName() == iteratorName\n\t\t\t\t\t_, inherited := blockIt.Inherited[traversal.RootName()]\n\n\t\t\t\t\tif ours || inherited {", "dyn.filter")
+
+# ---- C05 (converse clause) --------------------------------------------------------------------------
+mut("c05-objkey-error-dropped", "C05", "MUST", "hclsyntax/expression.go",
+    "\t\t\t\tSummary:     \"Incorrect key type\",\n\t\t\t\tDetail:      fmt.Sprintf(\"Can't use this value as a key: %s.\", err.Error()),\n\t\t\t\tSubject:     item.KeyExpr.Range().Ptr(),\n\t\t\t\tExpression:  item.KeyExpr,\n\t\t\t\tEvalContext: ctx,\n\t\t\t})\n\t\t\tknown = false\n\t\t\tcontinue",
+    "\t\t\t\tSummary:     \"Incorrect key type\",\n\t\t\t\tDetail:      fmt.Sprintf(\"Can't use this value as a key: %s.\", err.Error()),\n\t\t\t\tSubject:     item.KeyExpr.Range().Ptr(),\n\t\t\t\tExpression:  item.KeyExpr,\n\t\t\t\tEvalContext: ctx,\n\t\t\t})\n\t\t\tcontinue\n\t\t}\n\t\tif key.Type() != cty.String {\n\t\t\tknown = false\n\t\t\tcontinue", "unknown.origin")
+mut("c05-splat-dyn-before-null", "C05", "MUST", "hclsyntax/expression.go",
+    "\tif sourceVal.IsNull() {\n\t\tif autoUpgrade {", "\tif sourceTy == cty.DynamicPseudoType {\n\t\treturn cty.DynamicVal.WithSameMarks(sourceVal), diags\n\t}\n\tif sourceVal.IsNull() {\n\t\tif autoUpgrade {", "unknown.origin")
+mut("c05-keep-flag-demorgan", "C05", "KEEP", "hclsyntax/expression.go",
+    "\t\tif !key.IsKnown() {\n\t\t\tknown = false\n\t\t\tcontinue\n\t\t}\n\n\t\tkeyStr := key.AsString()", "\t\tif key.IsKnown() == false {\n\t\t\tknown = false\n\t\t\tcontinue\n\t\t}\n\n\t\tkeyStr := key.AsString()", "")
